@@ -92,11 +92,11 @@ class C04(Prop):
         for q in queries:
             ew, ep = longest_prefix(led.prefix_map, q)
             try:
-                gw = case.call_may_refuse("retrieve_webentity", t.retrieve_webentity, q)
+                gw = case.call_may_refuse("retrieve_webentity", t.retrieve_webentity, ob.arg(q))
             except TraphException:
                 gw = None
             try:
-                gp = case.call_may_refuse("retrieve_prefix", t.retrieve_prefix, q)
+                gp = case.call_may_refuse("retrieve_prefix", t.retrieve_prefix, ob.arg(q))
                 gp = bytes(gp) if gp else gp
             except TraphException:
                 gp = None
@@ -112,7 +112,7 @@ class C04(Prop):
         self.check_queries(case, queries)
         for p in queries:
             try:
-                g = case.call_may_refuse("get_webentity_by_prefix", t.get_webentity_by_prefix, p)
+                g = case.call_may_refuse("get_webentity_by_prefix", t.get_webentity_by_prefix, ob.arg(p))
             except TraphException:
                 g = None
             if g != led.prefix_map.get(p):
@@ -126,5 +126,18 @@ class C04(Prop):
         return (len(case.state.get("edit-kinds", ())) >= 2 and "nested-prefixes" in case.flags
                 and "absent-or-partial-query" in case.flags)
 
+
+    # scale probe (tv/scale.py): 320 webentities (ids beyond 256), 1280+ pages, judged once by this property's oracle
+    def extra_checks(self, ctx, tier, seed, shard, nshards):
+        if shard != 2 % nshards:
+            return
+        from ..scale import build
+        case = build(self, ctx, 320 if tier == "quick" else 700)
+        try:
+            self.check_state(case, sorted(case.led.closure)[::3])
+            ctx.extra["scale_probe_pages"] += len(case.led.pages)
+            ctx.extra["scale_probe_webentities"] += len(case.led.webentities())
+        finally:
+            case.abort()
 
 PROP = C04()
